@@ -8,6 +8,8 @@ import typing_h as T
 TABLES = ["Kits", "Enzymes"]
 LAKE_TARGETS = ["Moclo.Props.C04", "Moclo.Tables.Kits", "Moclo.Tables.Enzymes"]
 THEOREMS = ["Moclo.C04." + t for t in ["kit_classes_cut_aligned", "generic_classes_cut_aligned", "marks_and_sites", "accepted_record_fragments", "placeholder_target_tile", "placeholder_target_isRotated", "cutter_sites_plain", "no_inner_cut"]]
+# reductions under which a failing case stays a case of this property (see shrink.py)
+SHRINK = {"strings": True}
 RULE = ("every concrete class of the five kits and generic classes over every enzyme geometry; records built "
         "around an instance of the class structure with random run lengths, optionally extra recognition sites, "
         "neighbouring-kit structures and mutated letters, at a random rotation; for every *accepted* record the "
